@@ -130,8 +130,8 @@ Print Assumptions C19_guard_structure.
    EventsFilter::Push, ExecuteScriptHelper) the LAST ScriptFrame constructed is the user's frame with Sandboxed = true
    (console: the request parameter), and FilteredAddTarget / FilterUtility::EvaluateFilter construct none: no unsandboxed
    frame lies above the user's frame while user code runs (callee frames inherit Sandboxed from the stack top). *)
-Theorem C19_frames_sandboxed : sb_frames_expected = true.
-Proof. exact (eq_refl true <: sb_frames_expected = true). Qed.
+Theorem C19_frames_sandboxed : forall outer : list bool, sb_frames_expected outer = true.
+Proof. intros [|[|] outer]; exact (eq_refl true). Qed.
 Print Assumptions C19_frames_sandboxed.
 
 (* constructor calls (VMOps::ConstructorCall -> Type::Instantiate): DefaultObjectFactory<T> refuses arguments before `new T()`,
